@@ -475,7 +475,7 @@ func checkC04(R *Run) {
 				good := f2 == fn
 				if good {
 					g := callValue(st.Val)
-					good = g != nil && calleeName(&g.Call) == "(hotline.AccountManager).Get" && (g.Call.Args[0] == loginArg || resolveLocal(g.Call.Args[0]) == resolveLocal(loginArg)) && !reach[st.Block()]
+					good = g != nil && calleeName(&g.Call) == "(hotline.AccountManager).Get" && (g.Call.Args[0] == loginArg || resolveLocal(g.Call.Args[0]) == resolveLocal(loginArg) || sameLocalValue(g.Call.Args[0], loginArg)) && !reach[st.Block()]
 				}
 				R.check(good, "login-args", fname(f2)+": store ClientConn.Account", P.ipos(st), "account = Get(authenticated login), after authentication", "a connection's account is assigned outside the login sequence, before authentication, or from another login than the authenticated one")
 			})
@@ -563,7 +563,7 @@ func (R *Run) ruleAuthShape() {
 				return ""
 			}
 			// arg1 = password parameter, arg0 = []byte(Get(login).Password)
-			if stripConv(c.Call.Args[1]) != ssa.Value(af.Params[2]) {
+			if stripConv(resolveLocal(stripConv(c.Call.Args[1]))) != ssa.Value(af.Params[2]) {
 				return "compare-with-other-password"
 			}
 			fld, ok := loadedField(stripConv(c.Call.Args[0]))
@@ -573,7 +573,7 @@ func (R *Run) ruleAuthShape() {
 			u := stripConv(c.Call.Args[0]).(*ssa.UnOp)
 			acc := u.X.(*ssa.FieldAddr).X
 			get := callValue(acc)
-			if get == nil || calleeName(&get.Call) != "(hotline.AccountManager).Get" || len(get.Call.Args) != 1 || get.Call.Args[0] != ssa.Value(af.Params[1]) {
+			if get == nil || calleeName(&get.Call) != "(hotline.AccountManager).Get" || len(get.Call.Args) != 1 || stripConv(resolveLocal(get.Call.Args[0])) != ssa.Value(af.Params[1]) {
 				return "hash-of-other-account"
 			}
 			return "bcrypt-ok"
@@ -628,4 +628,69 @@ func varargElem(sl ssa.Value, k int64) ssa.Value {
 		}
 	}
 	return nil
+}
+
+
+// sameLocalValue: a and b read the same value — the same local variable, or the same field of the same local struct
+// (also via a variable that is a plain copy of that field), every write to which comes before both reads.
+func sameLocalValue(a, b ssa.Value) bool {
+	cellOfRead := func(v ssa.Value) (*ssa.Alloc, int, *ssa.UnOp) {
+		for d := 0; d < 4; d++ {
+			ld, ok := v.(*ssa.UnOp)
+			if !ok || ld.Op != token.MUL {
+				return nil, 0, nil
+			}
+			switch x := ld.X.(type) {
+			case *ssa.FieldAddr:
+				if al, ok := x.X.(*ssa.Alloc); ok {
+					return al, x.Field, ld
+				}
+				return nil, 0, nil
+			case *ssa.Alloc:
+				// a scalar local that holds one copy of something
+				if src := soleStore(x); src != nil {
+					v = src
+					continue
+				}
+				return x, -1, ld
+			default:
+				return nil, 0, nil
+			}
+		}
+		return nil, 0, nil
+	}
+	a1, f1, l1 := cellOfRead(a)
+	a2, f2, l2 := cellOfRead(b)
+	if a1 == nil || a1 != a2 || f1 != f2 {
+		return false
+	}
+	// every write to the variable (whole, or to that field) dominates both reads
+	ok := true
+	for _, r := range *a1.Referrers() {
+		switch x := r.(type) {
+		case *ssa.Store:
+			if x.Addr == ssa.Value(a1) && (!instrDominates(x, l1) || !instrDominates(x, l2)) {
+				ok = false
+			}
+		case *ssa.FieldAddr:
+			if f1 >= 0 && x.Field != f1 {
+				continue
+			}
+			for _, rr := range *x.Referrers() {
+				switch y := rr.(type) {
+				case *ssa.Store:
+					if y.Addr == ssa.Value(x) && (!instrDominates(y, l1) || !instrDominates(y, l2)) {
+						ok = false
+					}
+				case *ssa.UnOp, *ssa.DebugRef:
+				default:
+					ok = false
+				}
+			}
+		case *ssa.UnOp, *ssa.DebugRef:
+		default:
+			ok = false
+		}
+	}
+	return ok
 }
